@@ -610,29 +610,172 @@ theorem uwt_write_confined (fold : List Nat → List Nat) (hf : FoldAsciiOk fold
       · exact h1 m h
       · exact Or.inr h
 
-/-- **`uwt_confined`**: `update_working_tree` as coded (guarded deletions of non-directories first, then blob/symlink
-writes with a fresh cache per path), from every file system: every mutating call is confined. -/
+/-! ### gitlink entries and the whole update -/
+
+theorem validated_safe (fold : List Nat → List Nat) (hf : FoldAsciiOk fold) (v : Validator) (p : Bytes)
+    (h : validatePath (v.run fold) p = true) : SafeComps (splitOn pathSep p) :=
+  ⟨splitOn_ne_nil _ _, validated_clean fold hf v p h,
+   fun c hc => (validate_path_lexical fold hf v p h c hc).2.2.2.1⟩
+
+theorem lexMut_confined {root : PPath} {m : Mut} (h : LexMut root m) : Confined root m.target := by
+  obtain ⟨comps, ⟨hne, hcl, hs⟩, hcase⟩ := h
+  cases comps with
+  | nil => exact absurd rfl hne
+  | cons c rest =>
+    have hc := hcl c List.mem_cons_self
+    rcases hcase with ⟨i, hi1, hi2, ht⟩ | hw
+    · refine ⟨c, rest.take (i - 1), ?_, hs c List.mem_cons_self, hc.1, hc.2.1, hc.2.2⟩
+      rw [ht]
+      cases i with
+      | zero => omega
+      | succ i => simp
+    · refine ⟨c, rest ++ [dotGit], ?_, hs c List.mem_cons_self, hc.1, hc.2.1, hc.2.2⟩
+      rw [hw]; simp [Mut.target]
+
+/-- the invariant of the write phase, gitlink entries included: every logged call is lexical (`LexMut`) and every
+symlink on disk is an original one or one the log accounts for (`LinkFrame`) -/
+theorem uwt_phase_all_inv (fold : List Nat → List Nat) (hf : FoldAsciiOk fold) (v : Validator) (root : PPath)
+    (isEmpty : FS → PPath → Bool) (fs0 : FS) (h0 : NoDotGitLink fs0) :
+    ∀ (adds : List Entry) (st : St), (∀ m ∈ st.log, LexMut root m) → LinkFrame fs0 st →
+      (∀ m ∈ (uwtPhaseAllG uwtFreshCache gitlinkDirTestFollows isEmpty (v.run fold) root adds st).1.log, LexMut root m) ∧
+      LinkFrame fs0 (uwtPhaseAllG uwtFreshCache gitlinkDirTestFollows isEmpty (v.run fold) root adds st).1 := by
+  have hg : uwtFreshCache = true := rfl
+  have hfol : gitlinkDirTestFollows = false := rfl
+  rw [hg, hfol]
+  have step : ∀ (e : Entry) (st : St), (∀ m ∈ st.log, LexMut root m) → LinkFrame fs0 st →
+      ∀ m ∈ (uwtEntryG true false isEmpty (v.run fold) root e st).1.log, LexMut root m := by
+    intro e st hlog hfr m hm
+    by_cases hval : validatePath (v.run fold) e.path = true
+    · have hsafe := validated_safe fold hf v e.path hval
+      have hcl := hsafe.2.1
+      obtain ⟨lead, last, hsplit⟩ : ∃ lead last, splitOn pathSep e.path = lead ++ [last] :=
+        ⟨_, _, (List.dropLast_concat_getLast hsafe.1).symm⟩
+      unfold uwtEntryG at hm
+      split at hm
+      · -- gitlink
+        simp only [hval, Bool.true_eq_false, if_false, hsplit, if_true] at hm
+        cases hver : verifyLeadingDirs st.fs root (lead ++ [last]) [] with
+        | error err => rw [hver] at hm; exact hlog m hm
+        | ok safe' =>
+          rw [hver] at hm
+          simp only at hm
+          have hst : ({ st with safe := st.safe } : St) = st := by cases st; rfl
+          rw [hst] at hm
+          have hgit := nolink_at_dotgit (root := root) h0 hlog hfr (root ++ (lead ++ [last]))
+          have hE := uwtGitlink_log (root := root) (gitfileContent e.path) st lead last (by rw [← hsplit]; exact hcl)
+            hver (fun t => by have := hgit t; simpa [List.append_assoc] using this)
+          rcases hE m hm with h | h | h
+          · exact hlog m h
+          · exact ⟨lead ++ [last], by rw [← hsplit]; exact hsafe, Or.inl h⟩
+          · exact ⟨lead ++ [last], by rw [← hsplit]; exact hsafe, Or.inr h⟩
+      · have hE := uwtWriteG_fresh_log (root := root) isEmpty (v.run fold) e st lead last hsplit (by rw [← hsplit]; exact hcl)
+        rcases hE m hm with h | h
+        · exact hlog m h
+        · exact ⟨lead ++ [last], by rw [← hsplit]; exact hsafe, Or.inl h⟩
+    · have hv : validatePath (v.run fold) e.path = false := by simpa using hval
+      unfold uwtEntryG at hm
+      split at hm
+      · simp only [hv] at hm; exact hlog m hm
+      · simp only [uwtWriteG, hv, if_true] at hm; exact hlog m hm
+  intro adds
+  induction adds with
+  | nil => intro st hlog hfr; exact ⟨hlog, hfr⟩
+  | cons e es ih =>
+    intro st hlog hfr
+    simp only [uwtPhaseAllG]
+    have h1 := step e st hlog hfr
+    have h2 := (linkFrame_closed fs0).uwtEntryG true false isEmpty (v.run fold) root e st hfr
+    generalize uwtEntryG true false isEmpty (v.run fold) root e st = r at *
+    obtain ⟨st1, e1⟩ := r
+    cases e1 with
+    | some err => exact ⟨h1, h2⟩
+    | none => exact ih st1 h1 h2
+
+/-- **`uwt_confined`**: `update_working_tree` as coded (guarded deletions of non-directories first, then blob, symlink
+AND gitlink writes — fresh cache per path, directory test of the gitlink branch on the LSTAT result), from every file
+system that holds no symlink NAMED `.git` (the one thing the placeholder write `open(path/.git, "wb")` would follow;
+the proof shows no modelled call ever creates one, `gitlink_needs_no_dotgit_link` shows the hypothesis is needed):
+every mutating call acts, after symlink resolution, strictly below the root and outside `root/.git`. -/
 theorem uwt_confined (fold : List Nat → List Nat) (hf : FoldAsciiOk fold) (v : Validator) (root : PPath)
-    (isEmpty : FS → PPath → Bool) (deletes : List Bytes) (adds : List Entry) (fs : FS) :
+    (isEmpty : FS → PPath → Bool) (deletes : List Bytes) (adds : List Entry) (fs : FS) (h0 : NoDotGitLink fs) :
     ∀ m ∈ (updateWorkingTree isEmpty (v.run fold) root deletes adds { fs := fs, log := [], safe := [] }).1.log,
       Confined root m.target := by
   intro m hm
   unfold updateWorkingTree at hm
-  have hd := delete_confined fold hf v root deletes { fs := fs, log := [], safe := [] }
+  -- the delete phase: lexical log, link frame
+  have hdel : ∀ (paths : List Bytes) (st : St), (∀ m ∈ st.log, LexMut root m) →
+      ∀ m ∈ (deletePhase (v.run fold) root paths st).1.log, LexMut root m := by
+    have hgd : deleteGuarded = true := rfl
+    unfold deletePhase
+    rw [hgd]
+    intro paths
+    induction paths with
+    | nil => intro st h; exact h
+    | cons p ps ih =>
+      intro st hlog
+      simp only [deletePhaseG]
+      have h1 : ∀ m ∈ (deleteOldG true (v.run fold) root p st).1.log, LexMut root m := by
+        intro m hm
+        by_cases hval : validatePath (v.run fold) p = true
+        · have hsafe := validated_safe fold hf v p hval
+          obtain ⟨lead, last, hsplit⟩ : ∃ lead last, splitOn pathSep p = lead ++ [last] :=
+            ⟨_, _, (List.dropLast_concat_getLast hsafe.1).symm⟩
+          have hE := deleteOldG_guarded_ext (root := root) (v.run fold) p st lead last hsplit
+            (by rw [← hsplit]; exact hsafe.2.1)
+          rcases hE.log m hm with h | h
+          · exact hlog m h
+          · exact ⟨lead ++ [last], by rw [← hsplit]; exact hsafe, Or.inl h⟩
+        · have : validatePath (v.run fold) p = false := by simpa using hval
+          simp only [deleteOldG, this, if_true] at hm
+          exact hlog m hm
+      generalize deleteOldG true (v.run fold) root p st = r at *
+      obtain ⟨st1, e1⟩ := r
+      cases e1 with
+      | some err => exact h1
+      | none => exact ih st1 h1
+  have hl0 := hdel deletes { fs := fs, log := [], safe := [] } (fun m hm => by cases hm)
+  have hf0 : LinkFrame fs (deletePhase (v.run fold) root deletes { fs := fs, log := [], safe := [] }).1 :=
+    (linkFrame_closed fs).deletePhaseG _ _ _ _ _ (fun q t hq => Or.inl ⟨t, hq⟩)
   generalize deletePhase (v.run fold) root deletes { fs := fs, log := [], safe := [] } = r at *
   obtain ⟨st1, e1⟩ := r
   cases e1 with
-  | some err =>
-    rcases hd m hm with h | h
-    · cases h
-    · exact h
+  | some err => exact lexMut_confined (hl0 m hm)
   | none =>
     simp only [Step.andThen] at hm
-    rcases uwt_write_confined fold hf v root isEmpty adds st1 m hm with h | h
-    · rcases hd m h with h' | h'
-      · cases h'
-      · exact h'
-    · exact h
+    exact lexMut_confined ((uwt_phase_all_inv fold hf v root isEmpty fs h0 adds st1 hl0 hf0).1 m hm)
+
+/-- **Why the gitlink directory test must look at the LSTAT result** (regression witness for a test that follows
+symlinks).  `w/sub -> ../o` left on disk (HEAD/index out of step), the new tree has the gitlink `sub`: with
+`os.path.isdir` the link is kept and the placeholder is written to `o/.git`, OUTSIDE the work tree; the code as it
+stands removes the link, creates the directory `w/sub` and writes `w/sub/.git`. -/
+def exFs3 : FS := fun q =>
+  if q = [[119]] then some .dir
+  else if q = [[111]] then some .dir
+  else if q = [[119], [115]] then some (.link [46, 46, 47, 111])   -- w/s -> ../o
+  else none
+
+theorem gitlink_follow_counterexample :
+    (uwtGitlinkG true [[119]] [[115]] [1] { fs := exFs3, log := [], safe := [] }).1.log = [.write [[111], dotGit]] ∧
+    ¬ Confined [[119]] [[111], dotGit] ∧
+    (uwtGitlinkG false [[119]] [[115]] [1] { fs := exFs3, log := [], safe := [] }).1.log =
+      [.unlink [[119], [115]], .mkdir [[119], [115]], .write [[119], [115], dotGit]] := by
+  refine ⟨by decide, ?_, by decide⟩
+  rintro ⟨c, rest, h, _⟩
+  simp at h
+
+/-- the hypothesis of `uwt_confined` is needed: with a dangling symlink NAMED `.git` already inside the gitlink's
+directory the placeholder write follows it (no tree can put such a link there: `.git` components are refused) -/
+def exFs4 : FS := fun q =>
+  if q = [[119]] then some .dir
+  else if q = [[111]] then some .dir
+  else if q = [[119], [115]] then some .dir
+  else if q = [[119], [115], dotGit] then some (.link [46, 46, 47, 46, 46, 47, 111, 47, 120])   -- w/s/.git -> ../../o/x
+  else none
+
+theorem gitlink_needs_no_dotgit_link :
+    (uwtGitlinkG false [[119]] [[115]] [1] { fs := exFs4, log := [], safe := [] }).1.log = [.write [[111], [120]]] ∧
+    ¬ NoDotGitLink exFs4 := by
+  refine ⟨by decide, fun h => h [[119], [115]] [46, 46, 47, 46, 46, 47, 111, 47, 120] (by decide)⟩
 
 /-- **Why the cache must be fresh** (regression witness for the shared-cache variant).  After a delete phase that
 verified `w/0` as a directory and removed it, and a write that created `w/0 -> ../o`, a cache still naming `0` makes
